@@ -248,7 +248,8 @@ pub fn judge(o: &TrOutcome, fail_at: Option<u64>) -> Check {
             _ => None,
         }
     };
-    let forced = |e: &Value| argv(e).iter().any(|t| t == "--force" || t == "-f");
+    // --force, --force=true, -f, or -f combined with other short flags (-fv)
+    let forced = |e: &Value| argv(e).iter().any(|t| t == "--force" || t == "--force=true" || (t.starts_with('-') && !t.starts_with("--") && t.contains('f')));
     let failed_n: Option<u64> = o.log.iter().find(|e| e["failed"] == true && e["extra"]["scripted_pack_failure"] != true).and_then(|e| e["n"].as_u64());
     let fault_is_removal_of = |name: &str| o.log.iter().any(|e| Some(e["n"].as_u64().unwrap_or(0)) == failed_n && removal_kind(e).is_some() && names_in(e, name));
 
@@ -343,8 +344,10 @@ fn exec_one(scratch: &Path, s: &Scenario, kind: &str) -> OneResult {
                 for (i, _) in a.iter().enumerate().filter(|(_, t)| *t == "--buildpack") {
                     let bp = a.get(i + 1).cloned().unwrap_or_default();
                     // compiled buildpacks are passed as absolute paths; registry ids (heroku/nodejs) are not paths
-                    if bp.starts_with('/') && !bp.starts_with(&root.join("tmp").to_string_lossy().to_string()) {
-                        return done(Err(Fail::new("C16:compiled-buildpack-outside-tmpdir", format!("--buildpack {bp}"))), classes, o.log.len());
+                    // "no temporary ... buildpack directory is left behind": wherever the compiled buildpack was put, it
+                    // must be gone once the test has ended
+                    if bp.starts_with('/') && Path::new(&bp).exists() {
+                        return done(Err(Fail::new("C16:compiled-buildpack-left-behind", format!("--buildpack {bp} still exists after the run"))), classes, o.log.len());
                     }
                 }
             }
